@@ -86,9 +86,17 @@ def snode(spec):
 TASKS = {"node": node, "tnode": tnode, "snode": snode}
 
 
+@task(version="1")
+def ident(x):
+    """Returns its argument: node(ident(spec)) is a different expression than node(spec) but the same call once
+    the argument is evaluated (same-parent twins that are not merged as expressions)."""
+    return x
+
+
 def call(spec):
     opts = dict(spec[4]) if len(spec) > 4 and spec[4] else {}
     t = TASKS[opts.pop("task", "node")]
+    via = opts.pop("via", False)
     ctx = opts.pop("context", None)
     if "tags" in opts:
         opts["tags"] = [tuple(x) for x in opts["tags"]]
@@ -96,4 +104,4 @@ def call(spec):
         t = t.options(**opts)
     if ctx:
         t = t.update_context(ctx)
-    return t(spec[:4])
+    return t(ident(spec[:4])) if via else t(spec[:4])
